@@ -4,6 +4,7 @@ import (
 	"fmt"
 	"go/types"
 	"math/big"
+	"sync"
 
 	"golang.org/x/tools/go/ssa"
 	"verif/engine/sym"
@@ -20,8 +21,11 @@ type opaqueObj struct {
 }
 
 var opaqueTypes = map[string]types.Type{}
+var opaqueMu sync.Mutex
 
 func opaqueType(name string) types.Type {
+	opaqueMu.Lock()
+	defer opaqueMu.Unlock()
 	if t, ok := opaqueTypes[name]; ok {
 		return t
 	}
